@@ -102,7 +102,8 @@ class Q:
         return sql, tree
 
     def simple(self, depth):
-        nsrc = self.r.randint(0, 4)
+        nsrc = self.r.choice([0, 1, 1, 2, 2, 3, 3, 4, 4, 5, 6])
+        bare_run = self.r.random() < 0.2        # a run of joins that carry no ON / USING (CROSS JOIN, NATURAL JOIN)
         sql, tree = self.select(depth, allow_star=nsrc > 0)
         if nsrc:
             srcs_sql, srcs = [], []
@@ -116,12 +117,12 @@ class Q:
                     srcs_sql.append(", " + s)
                     srcs.append({"cross join": t} if seen_join else t)
                 else:
-                    jk = self.r.choice(JOINS)
+                    jk = self.r.choice(["cross join", "natural join"]) if bare_run else self.r.choice(JOINS)
                     s, t = self.source(depth)
                     seen_join = True
                     j = {jk: t}
                     js = " %s %s" % (jk, s)
-                    if jk != "cross join":
+                    if jk not in ("cross join", "natural join"):
                         if self.r.random() < 0.8:
                             es, et = self.expr(0)
                             js += " on " + es
